@@ -502,6 +502,13 @@ def str_method(I, n, t: TStr, name, args):
         if a0 is not None and a0.is_literal():
             return ListV(S(p) for p in t.split(a0.text()))
         return Other('split')
+    if name == 'rstrip' and a0 is not None and a0.is_literal():
+        return S(t.rstrip_chars(a0.text()))
+    if name == 'removesuffix' and a0 is not None and a0.is_literal():
+        r = t.removesuffix(a0.text())
+        if r is not None:
+            return S(r)
+        return Other('str.removesuffix')
     if name in ('strip', 'lower', 'upper', 'lstrip', 'rstrip', 'format', 'replace', 'splitlines', 'join', 'title'):
         if name == 'join':
             return Other('joined')
